@@ -198,6 +198,11 @@ class SimNum:
     def __mod__(self, o): return self._op('mod', o, lambda a, b: a % b)
     def __pow__(self, o): return self._op('pow', o, lambda a, b: a ** b)
     def __neg__(self): return self._op('neg', None, lambda a, b: -a)
+    # rich comparisons (M-expressions compare the target): points like the arithmetic operators
+    def __lt__(self, o): return self._op('lt', o, lambda a, b: a < b)
+    def __le__(self, o): return self._op('le', o, lambda a, b: a <= b)
+    def __gt__(self, o): return self._op('gt', o, lambda a, b: a > b)
+    def __ge__(self, o): return self._op('ge', o, lambda a, b: a >= b)
 
     def __repr__(self):
         return f'SimNum({self._v!r})'
